@@ -74,13 +74,14 @@ static const char *fam_name[NFAM] = {
 
 enum { P_LU, P_MLD, P_MRD, P_MINV, P_ZTOY, P_YTOZ, P_STOZ, P_ZTOS, P_STOY,
        P_YTOS, P_QRSOLVE, P_QRSOLVE2, P_APPLY, P_SOLVE, P_ADD, P_LSQ,
-       NPATH };
+       P_COLSYS, NPATH };
 static const char *path_name[NPATH] = {
     "_vnacommon_lu", "_vnacommon_mldivide", "_vnacommon_mrdivide",
     "_vnacommon_minverse", "vnaconv_ztoyn", "vnaconv_ytozn", "vnaconv_stozn",
     "vnaconv_ztosn", "vnaconv_stoyn", "vnaconv_ytosn", "_vnacommon_qrsolve",
     "_vnacommon_qr+qrsolve2", "vnacal_apply", "vnacal_new_solve",
-    "vnacal_new_add_*(a,b)", "vnacal_new_solve(noisy)"
+    "vnacal_new_add_*(a,b)", "vnacal_new_solve(noisy)",
+    "vnacal_new_solve(column systems)"
 };
 
 /* kinds of system */
@@ -2029,6 +2030,177 @@ out:
 }
 
 /* ------------------------------------------------------------------ */
+/* independent column systems of E12 / UE14                            */
+/* ------------------------------------------------------------------ */
+/*
+ * E12 and UE14 solve one linear system per driven port.  A column whose
+ * standards were duplicated by mistake (the match measured twice in place
+ * of the open, ...) has two identical coefficient rows.  Whether Gaussian
+ * elimination meets an exactly zero pivot on them is a matter of rounding
+ * and is not asserted by itself; it is read off the run in which every
+ * column is exactly determined.  What is asserted: the verdict on that
+ * column does not depend on how many standards the other port received -
+ * a column reported through EDOM stays reported when the other column is
+ * over-determined - and a proper set solves whatever the redundancy.
+ */
+#define COLSYS_N (2 * 2 * 3 * 4)	/* type x duplicated port x duplicated
+				   standard x layout */
+
+static dc colsys_reflect(int port, dc gamma)
+{
+    static const dc e00[2] = { 0.03 + 0.02 * I, -0.02 + 0.04 * I };
+    static const dc e11[2] = { -0.05 + 0.10 * I, 0.08 - 0.03 * I };
+    static const dc e10e01[2] = { 0.90 - 0.15 * I, 0.85 + 0.20 * I };
+    int p = port - 1;
+    return e00[p] + e10e01[p] * gamma / (1.0 - e11[p] * gamma);
+}
+
+static int colsys_add_reflect(vnacal_new_t *vnp, int port, int parameter,
+	dc gamma, dc noise)
+{
+    dc m11[1], m12[1], m21[1], m22[1];
+    dc *m[4] = { m11, m12, m21, m22 };
+    const dc leak = 1.0e-4 - 2.0e-4 * I;
+
+    m11[0] = port == 1 ? colsys_reflect(1, gamma) + noise :
+	colsys_reflect(1, 1.0);
+    m22[0] = port == 2 ? colsys_reflect(2, gamma) + noise :
+	colsys_reflect(2, 1.0);
+    m12[0] = m21[0] = leak;
+    return vnacal_new_add_single_reflect_m(vnp, m, 2, 2, parameter, port);
+}
+
+/* returns the rc of vnacal_new_solve, -2 on set-up failure */
+static int colsys_case(vnacal_type_t type, int dup_port, int dup_std,
+	int layout, int extra, int *en, int *math_lines)
+{
+    static const int pre[3] = { VNACAL_SHORT, VNACAL_OPEN, VNACAL_MATCH };
+    static const dc gam[3] = { -1.0, 1.0, 0.0 };
+    static const dc xg[2] = { 0.4 - 0.3 * I, -0.2 + 0.5 * I };
+    const double fv[1] = { 1.0e9 };
+    vnacal_t *vcp;
+    vnacal_new_t *vnp = NULL;
+    int rc = -2, other = 3 - dup_port;
+
+    vf_errlog_reset(&apply_log);
+    vcp = vnacal_create((vnaerr_error_fn_t *)vf_errfn, &apply_log);
+    if (vcp == NULL || (vnp = vnacal_new_alloc(vcp, type, 2, 2, 1)) == NULL ||
+	    vnacal_new_set_frequency_vector(vnp, fv) != 0)
+	goto out;
+    /* the other port: short, open, match and `extra' more known reflects */
+    for (int k = 0; k < 3; ++k)
+	if (colsys_add_reflect(vnp, other, pre[k], gam[k], 0.0) != 0)
+	    goto out;
+    for (int k = 0; k < extra; ++k) {
+	int h = vnacal_make_scalar_parameter(vcp, xg[k]);
+	if (h < 0 || colsys_add_reflect(vnp, other, h, xg[k], 0.0) != 0)
+	    goto out;
+    }
+    /* the port under test: standard dup_std twice (the second sweep a
+       little off), in place of the next standard; dup_std < 0: proper set */
+    /* layout: which of the two other standards gives way (bit 0), and
+       whether the off sweep is the one in the replaced or in the original
+       position (bit 1) */
+    for (int k = 0; k < 3; ++k) {
+	int use = k;
+	dc noise = 0.0;
+	int repl = dup_std < 0 ? -1 : (dup_std + 1 + (layout & 1)) % 3;
+	if (k == repl) {
+	    use = dup_std;
+	    if (!(layout & 2))
+		noise = 3.0e-5 + 1.0e-5 * I;
+	} else if (k == dup_std && (layout & 2)) {
+	    noise = 3.0e-5 + 1.0e-5 * I;
+	}
+	if (colsys_add_reflect(vnp, dup_port, pre[use], gam[use], noise) != 0)
+	    goto out;
+    }
+    {
+	dc m11[1] = { 0.05 + 0.02 * I }, m12[1] = { 0.88 - 0.12 * I };
+	dc m21[1] = { 0.90 - 0.10 * I }, m22[1] = { 0.04 - 0.03 * I };
+	dc *m[4] = { m11, m12, m21, m22 };
+	if (vnacal_new_add_through_m(vnp, m, 2, 2, 1, 2) != 0)
+	    goto out;
+    }
+    vf_errlog_reset(&apply_log);
+    errno = 0;
+    rc = vnacal_new_solve(vnp);
+    *en = errno;
+    *math_lines = apply_log.count;
+out:
+    if (vnp != NULL)
+	vnacal_new_free(vnp);
+    if (vcp != NULL)
+	vnacal_free(vcp);
+    return rc;
+}
+
+static void run_colsys(ctx_t *c, long idx)
+{
+    vf_result *r = c->r;
+    static const char *const sn[3] = { "short", "open", "match" };
+    int layout = (int)(idx % 4); idx /= 4;
+    int dup_std = (int)(idx % 3); idx /= 3;
+    int dup_port = (int)(idx % 2) + 1; idx /= 2;
+    vnacal_type_t type = idx ? VNACAL_UE14 : VNACAL_E12;
+    const char *tn = vnacal_type_to_name(type);
+    int rc0 = 0, en0 = 0, ml0 = 0;
+    char sig[100];
+
+    vf_desc(r, "%s 2x2: port %d measured with the %s twice in place of "
+	    "another standard (layout %d), the other port with 3, 4, 5 known "
+	    "reflects; and the proper set", tn, dup_port, sn[dup_std], layout);
+    for (int extra = 0; extra <= 2 && r->status != VF_VIOL; ++extra) {
+	int en = 0, ml = 0, rc;
+	/* the proper set solves whatever the redundancy */
+	rc = colsys_case(type, dup_port, -1, 0, extra, &en, &ml);
+	++r->transitions;
+	if (rc != 0) {
+	    snprintf(sig, sizeof(sig), "colsys-proper-failed:%s", tn);
+	    vf_fail(r, sig, "short, open, match on port %d, %d known "
+		    "reflects on the other port and a through: "
+		    "vnacal_new_solve returned %d errno %d (%s)", dup_port,
+		    3 + extra, rc, en, apply_log.count ? apply_log.msg[0] :
+		    "no message");
+	    return;
+	}
+	rc = colsys_case(type, dup_port, dup_std, layout, extra, &en, &ml);
+	++r->transitions;
+	if (rc == -2) {
+	    vf_fail(r, "setup:colsys", "set-up failed: %s",
+		    apply_log.count ? apply_log.msg[0] : "?");
+	    return;
+	}
+	if (extra == 0) {
+	    rc0 = rc; en0 = en; ml0 = ml;
+	    if (rc == -1 && (en != EDOM || ml != 1)) {
+		snprintf(sig, sizeof(sig), "colsys-errno:%s", tn);
+		vf_fail(r, sig, "duplicated standard: vnacal_new_solve "
+			"failed with errno %d and %d error lines, documented "
+			"is EDOM with one", en, ml);
+		return;
+	    }
+	    if (rc == -1)
+		++c->singular;
+	    else
+		++c->skipped;	/* no exactly zero pivot met: best effort */
+	    continue;
+	}
+	if (rc0 == -1 && (rc != -1 || en != EDOM || ml != 1)) {
+	    snprintf(sig, sizeof(sig), "colsys-verdict-depends-on-other-"
+		    "column:%s", tn);
+	    vf_fail(r, sig, "port %d measured with the %s twice: with three "
+		    "standards on the other port the solve is refused "
+		    "(errno %d, %d line), with %d it returns %d errno %d (%d "
+		    "lines): the singular column system is the same", dup_port,
+		    sn[dup_std], en0, ml0, 3 + extra, rc, en, ml);
+	    return;
+	}
+	++c->checked;
+    }
+}
+
+/* ------------------------------------------------------------------ */
 /* vnacal_new_add_*(a, b): a/b -> m reduction when standards are added */
 /* ------------------------------------------------------------------ */
 static int family_of_2x2(int tier, long *t)
@@ -2259,6 +2431,11 @@ static void build_cases(int tier)
 	cases[ncases - 1].first = k;
 	cases[ncases - 1].last = k + 1;
     }
+    for (long k = 0; k < COLSYS_N; ++k) {
+	add_cases(P_COLSYS, -4, 2, 2, 1);
+	cases[ncases - 1].first = k;
+	cases[ncases - 1].last = k + 1;
+    }
     for (int t = 0; t < 2; ++t)
 	for (int et = 0; et < NETERM; ++et)
 	    for (int sub = 0; sub < NSUBSET; ++sub) {
@@ -2288,8 +2465,11 @@ static void run(int tier, long idx, vf_result *r)
 	    cs->fam >= 0 ? fam_name[cs->fam] : cs->fam == -2 ?
 	    "one-port standards: every subset of >= 3 of 5, every order" :
 	    cs->fam == -3 ? "recipes with noise" :
+	    cs->fam == -4 ? "duplicated standards in one column" :
 	    "all 2x2 families", cs->m, cs->n, cs->first, cs->last - 1);
-    if (cs->path == P_LSQ) {
+    if (cs->path == P_COLSYS) {
+	run_colsys(&c, cs->first);
+    } else if (cs->path == P_LSQ) {
 	run_lsq(&c, tier, cs->first);
     } else if (cs->path == P_SOLVE) {
 	long t = cs->first;
@@ -2326,13 +2506,15 @@ static void run(int tier, long idx, vf_result *r)
 	vf_note("STATS %s | %s | %dx%d | checked %ld skipped %ld singular %ld "
 		"worst %.2Le minsing %.2e", path_name[cs->path],
 		cs->fam >= 0 ? fam_name[cs->fam] : cs->fam == -2 ? "one-port" :
-		cs->fam == -3 ? "noisy" : "2x2", cs->m, cs->n,
+		cs->fam == -3 ? "noisy" : cs->fam == -4 ? "colsys" : "2x2",
+		cs->m, cs->n,
 		c.checked, c.skipped, c.singular, c.worst, c.minsing);
     r->nontrivial = c.checked > 0 || c.singular > 0;
     r->states = c.checked + c.singular;
     vf_outcome(r, "%s %s worst%s%s%s", path_name[cs->path],
 	    cs->fam >= 0 ? fam_name[cs->fam] : cs->fam == -2 ? "one-port" :
-	    cs->fam == -3 ? "noisy" : "2x2", decade(c.worst),
+	    cs->fam == -3 ? "noisy" : cs->fam == -4 ? "colsys" : "2x2",
+	    decade(c.worst),
 	    c.skipped ? " some-skipped" : "", c.singular ? " singular" : "");
 }
 
